@@ -145,6 +145,18 @@ imbv_perturb(const struct item *it, int idx, IMB_JOB *job, struct pert *p, const
         ENTRY(h == IMB_AUTH_KASUMI_UIA1, "kasumi.key=NULL") { job->u.KASUMI_UIA1._key = NULL; ACC2(IMB_ERR_JOB_NULL_KEY, IMB_ERR_JOB_NULL_AUTH_KEY); return 1; }
         ENTRY(c == IMB_CIPHER_CBCS_1_9, "next_iv=NULL") { job->cipher_fields.CBCS.next_iv = NULL; ACC1(IMB_ERR_JOB_NULL_NEXT_IV); return 1; }
 
+        /* ---- valid variants: a key pointer the direction does not use may be NULL */
+        ENTRY(has_c && dec && (c == IMB_CIPHER_CBC || c == IMB_CIPHER_ECB || c == IMB_CIPHER_CBCS_1_9 || c == IMB_CIPHER_DES ||
+                               c == IMB_CIPHER_SM4_ECB || c == IMB_CIPHER_SM4_CBC),
+              "enc_keys=NULL-on-decrypt(valid)") { job->enc_keys = NULL; p->expect_valid = 1; return 1; }
+        ENTRY(has_c && !dec && (c == IMB_CIPHER_CBC || c == IMB_CIPHER_ECB || c == IMB_CIPHER_CBCS_1_9 || c == IMB_CIPHER_DES ||
+                                c == IMB_CIPHER_SM4_ECB || c == IMB_CIPHER_SM4_CBC || c == IMB_CIPHER_CNTR || c == IMB_CIPHER_CFB),
+              "dec_keys=NULL-on-encrypt(valid)") { job->dec_keys = NULL; p->expect_valid = 1; return 1; }
+        /* ZUC-EEA3: 16-byte IV belongs to the 128-bit key, 23/25-byte IVs to the 256-bit key */
+        ENTRY(c == IMB_CIPHER_ZUC_EEA3 && it->keylen == 32, "zuc256.iv_len=16") { job->iv_len_in_bytes = 16; ACC1(IMB_ERR_JOB_IV_LEN); return 1; }
+        ENTRY(c == IMB_CIPHER_ZUC_EEA3 && it->keylen == 16, "zuc128.iv_len=23") { job->iv_len_in_bytes = 23; ACC1(IMB_ERR_JOB_IV_LEN); return 1; }
+        ENTRY(c == IMB_CIPHER_ZUC_EEA3 && it->keylen == 16, "zuc128.iv_len=25") { job->iv_len_in_bytes = 25; ACC1(IMB_ERR_JOB_IV_LEN); return 1; }
+
         /* ---- enumerations out of range */
         static const int badmode[] = { 0, IMB_CIPHER_NUM, IMB_CIPHER_NUM + 1, 0x7fffffff };
         for (unsigned i = 0; i < 4; i++)
@@ -351,6 +363,60 @@ rej_done(struct mmgr *mm, IMB_JOB *job, void *arg)
 
 static uint64_t n_entries, n_baselines, n_valid_after;
 
+/* synchronous bursts (IMB_SUBMIT_CIPHER_BURST / HASH_BURST / AEAD_BURST): which one takes this item; -1 none */
+static int
+sync_kind(const struct item *it)
+{
+        const int c = it->cipher, h = it->hash;
+        if (h == IMB_AUTH_NULL && (c == IMB_CIPHER_CBC || c == IMB_CIPHER_CNTR || c == IMB_CIPHER_ECB || c == IMB_CIPHER_CFB))
+                return 0;
+        if (c == IMB_CIPHER_NULL &&
+            (h == IMB_AUTH_HMAC_SHA_1 || h == IMB_AUTH_HMAC_SHA_224 || h == IMB_AUTH_HMAC_SHA_256 || h == IMB_AUTH_HMAC_SHA_384 ||
+             h == IMB_AUTH_HMAC_SHA_512 || h == IMB_AUTH_SHA_1 || h == IMB_AUTH_SHA_224 || h == IMB_AUTH_SHA_256 ||
+             h == IMB_AUTH_SHA_384 || h == IMB_AUTH_SHA_512 || h == IMB_AUTH_AES_CMAC || h == IMB_AUTH_AES_CMAC_BITLEN ||
+             h == IMB_AUTH_AES_CMAC_256))
+                return 1;
+        if (c == IMB_CIPHER_CCM)
+                return 2;
+        return -1;
+}
+/* the synchronous calls take cipher / direction / key size / hash as PARAMETERS and validate the rest of the
+ * descriptor: a catalogue entry that only touches fields the call never looks at is not a violation there */
+static int
+sync_entry_applies(int kind, const IMB_JOB *a, const IMB_JOB *b)
+{
+        int tc = a->cipher_mode != b->cipher_mode || a->cipher_direction != b->cipher_direction ||
+                 a->key_len_in_bytes != b->key_len_in_bytes || a->enc_keys != b->enc_keys || a->dec_keys != b->dec_keys ||
+                 a->iv != b->iv || a->iv_len_in_bytes != b->iv_len_in_bytes || a->dst != b->dst ||
+                 a->msg_len_to_cipher_in_bytes != b->msg_len_to_cipher_in_bytes ||
+                 a->cipher_start_src_offset_in_bytes != b->cipher_start_src_offset_in_bytes;
+        int th = a->hash_alg != b->hash_alg || a->auth_tag_output != b->auth_tag_output ||
+                 a->auth_tag_output_len_in_bytes != b->auth_tag_output_len_in_bytes ||
+                 a->msg_len_to_hash_in_bytes != b->msg_len_to_hash_in_bytes ||
+                 a->hash_start_src_offset_in_bytes != b->hash_start_src_offset_in_bytes || memcmp(&a->u, &b->u, sizeof a->u);
+        int ts = a->src != b->src;
+        if (kind == 0)
+                return tc || ts;
+        if (kind == 1)
+                return th || ts;
+        if (a->hash_alg != b->hash_alg)
+                return 0; /* the AEAD burst implies the hash algorithm; the descriptor field is not read */
+        return tc || th || ts;
+}
+static uint32_t
+sync_submit(struct mmgr *mm, int kind, IMB_JOB *j)
+{
+        if (kind == 0)
+                return (uint32_t) mcall("submit_cipher_burst", (void *) mm->m->submit_cipher_burst, 6, (uint64_t) mm->m, (uint64_t) j,
+                                        (uint64_t) 1, (uint64_t) j->cipher_mode, (uint64_t) j->cipher_direction,
+                                        (uint64_t) j->key_len_in_bytes);
+        if (kind == 1)
+                return (uint32_t) mcall("submit_hash_burst", (void *) mm->m->submit_hash_burst, 4, (uint64_t) mm->m, (uint64_t) j,
+                                        (uint64_t) 1, (uint64_t) j->hash_alg);
+        return (uint32_t) mcall("submit_aead_burst", (void *) mm->m->submit_aead_burst, 6, (uint64_t) mm->m, (uint64_t) j, (uint64_t) 1,
+                                (uint64_t) j->cipher_mode, (uint64_t) j->cipher_direction, (uint64_t) j->key_len_in_bytes);
+}
+
 static struct mmgr *
 one_baseline(struct mmgr *mm, int cfg, const struct suite *cs, const struct suite *hs, struct rng *r, long len, int dir,
              int burst)
@@ -364,8 +430,13 @@ one_baseline(struct mmgr *mm, int cfg, const struct suite *cs, const struct suit
         g.dir = dir;
         g.pl = rng_below(r, 2) ? PL_END : PL_START;
         item_gen(IT, cs, hs, r, &g, mm);
+        const int skind = burst == 2 ? sync_kind(IT) : -1;
+        static IMB_JOB sync_jobs[1];
+        if (burst == 2 && skind < 0)
+                return mm;
         item_expect(IT);
         const char *sname = IT->cipher != IMB_CIPHER_NULL ? cipher_name(IT->cipher) : hash_name(IT->hash);
+        const char *apiname = burst == 2 ? "sync-burst" : burst ? "burst" : "job";
         const void *des3_tmp[3];
         IMB_JOB base, snap;
         item_fill_job(IT, &base);
@@ -377,7 +448,9 @@ one_baseline(struct mmgr *mm, int cfg, const struct suite *cs, const struct suit
                 IMB_JOB *bj[2];
                 sigjmp_buf jb;
                 memset(&p, 0, sizeof p);
-                if (burst) {
+                if (burst == 2)
+                        j = &sync_jobs[0];
+                else if (burst) {
                         if (mm_get_next_burst(mm, 1, bj) != 1)
                                 harness_fail("reject: no burst slot");
                         j = bj[0];
@@ -387,15 +460,17 @@ one_baseline(struct mmgr *mm, int cfg, const struct suite *cs, const struct suit
                 if (idx >= 0) {
                         if (!imbv_perturb(IT, idx, j, &p, des3_tmp))
                                 break;
+                        if (burst == 2 && !p.expect_valid && !sync_entry_applies(skind, j, &base))
+                                continue;
                 } else
                         p.expect_valid = 1; /* idx -1: the baseline itself */
-                if (burst)
+                if (burst == 1)
                         mcall("imb_set_session", (void *) imb_set_session, 2, (uint64_t) mm->m, (uint64_t) j);
                 snap = *j;
                 ret_job = NULL;
                 if (sigsetjmp(jb, 1)) {
                         guard_protect_slot(0, 0);
-                        snprintf(key, sizeof key, "C12|%s|%s|%s|fault|%s", vn, sname, p.name, burst ? "burst" : "job");
+                        snprintf(key, sizeof key, "C12|%s|%s|%s|fault|%s", vn, sname, p.name, apiname);
                         snprintf(det, sizeof det,
                                  "%s of %s object while an invalid job (%s) was submitted (buffers write-protected): %s",
                                  g_fault.is_write ? "write" : "read", g_fault.kind, p.name, g_fault.ripsym);
@@ -411,7 +486,13 @@ one_baseline(struct mmgr *mm, int cfg, const struct suite *cs, const struct suit
                         guard_protect_slot(0, 1);
                 uint32_t nb = 0;
                 int err;
-                if (burst) {
+                if (burst == 2) {
+                        nb = sync_submit(mm, skind, j);
+                        err = imb_get_errno(mm->m);
+                        ret_job = j;
+                        if (p.expect_valid && nb != 1)
+                                ret_job = NULL;
+                } else if (burst) {
                         nb = mm_submit_burst(mm, 1, bj, 0, p.expect_valid ? 0 : -2);
                         err = imb_get_errno(mm->m);
                         if (p.expect_valid) {
@@ -449,15 +530,19 @@ one_baseline(struct mmgr *mm, int cfg, const struct suite *cs, const struct suit
                 int st = ret_job ? (int) ret_job->status : (int) j->status;
                 if (burst && nb != 0)
                         st = -2;
+                if (burst == 2 && nb == 0 && err != 0)
+                        st = IMB_STATUS_INVALID_ARGS; /* rejected through the call parameters: no per-job status */
                 if (st != IMB_STATUS_INVALID_ARGS) {
-                        snprintf(key, sizeof key, "C12|%s|%s|not-rejected|%s|%s", vn, sname, p.name, burst ? "burst" : "job");
+                        snprintf(key, sizeof key, "C12|%s|%s|not-rejected|%s|%s", vn, sname, p.name, apiname);
                         snprintf(det, sizeof det, "job violating '%s' came back with status %d (errno %d)", p.name, st, err);
                         ev_violation("C12", key, det, item_describe(IT));
-                        if (burst) {
+                        if (burst == 1) {
                                 IMB_JOB *fj[2];
                                 mcall("flush_burst", (void *) mm->m->flush_burst, 3, (uint64_t) mm->m, (uint64_t) 2, (uint64_t) fj);
                                 mm = mm_new(cfg);
                         }
+                        if (burst == 2)
+                                memcpy(IT->src, IT->src_orig, IT->buf_len);
                 } else {
                         int ok = 0;
                         for (int a = 0; a < p.nacc; a++)
@@ -483,11 +568,15 @@ one_baseline(struct mmgr *mm, int cfg, const struct suite *cs, const struct suit
                                 memcpy(IT->src, IT->src_orig, IT->buf_len);
                         }
                 }
-                cov_hit("C12", "%s|%s|%s|%s|err%d", vn, sname, p.name, burst ? "burst" : "job", err);
+                cov_hit("C12", "%s|%s|%s|%s|err%d", vn, sname, p.name, apiname, err);
                 if ((idx & 15) == 15) {
                         /* a following valid job must be unaffected */
                         IMB_JOB *v;
-                        if (burst) {
+                        if (burst == 2) {
+                                v = &sync_jobs[0];
+                                *v = base;
+                                ret_job = sync_submit(mm, skind, v) == 1 ? v : NULL;
+                        } else if (burst) {
                                 if (mm_get_next_burst(mm, 1, bj) != 1)
                                         continue;
                                 v = bj[0];
@@ -530,7 +619,7 @@ eng_reject(void)
                 int cfg = g_variant_cfg[vi];
                 if (g_opt.cfg_only >= 0 && cfg != g_opt.cfg_only)
                         continue;
-                for (int burst = 0; burst < 2; burst++) {
+                for (int burst = 0; burst < 3; burst++) { /* 0 job API, 1 asynchronous burst, 2 synchronous cipher/hash/AEAD bursts */
                         struct mmgr *mm = mm_new(cfg);
                         if (!mm)
                                 continue;
